@@ -23,13 +23,13 @@ Add Ring SrK : Sring.
 
 (* ------------------------------------------------------------------ glue: boxes and plane sums *)
 Lemma in_box_mono B B' e : B <= B' -> in_box B e -> in_box B' e.
-Proof. destruct e as [[[a b] c] d]. unfold in_box. lia. Qed.
+Proof using Type. clear sq. destruct e as [[[a b] c] d]. unfold in_box. lia. Qed.
 
 (* every finite list of fields fits into some centred box (the half-width [B] of C02's and C03's
    statements can always be chosen) *)
 Lemma box_exists (fs : list (field S)) (B0 : Z) :
   exists B, B0 <= B /\ forall f, In f fs -> in_box B (fextent f).
-Proof.
+Proof using Type. clear sq.
   induction fs as [|f r (B & HB & IH)].
   - exists B0. split; [lia|]. intros f [].
   - destruct (fextent f) as [[[a b] c] d] eqn:E.
@@ -46,7 +46,7 @@ Lemma plane_fraunhofer_box B n m (g : Z -> Z -> S) ar ac U V :
   (forall r c, inr n (r + n / 2) && inr m (c + m / 2) = false -> g r c = k0) ->
   plane_fraunhofer B g ar ac U V
   = fourier_sum (mkArr n m (fun x y => g (x - n / 2) (y - m / 2))) ar ac 0 0 U V.
-Proof.
+Proof using Sring. clear sq.
   intros Hn Hm HnB HmB Hg. unfold plane_fraunhofer, fourier_sum. cbn [nr nc get].
   rewrite (sumZ_support S Sring (2 * B + 1) (B - n / 2) n); try lia.
   - apply sumZ_ext; intros x Hx.
@@ -199,7 +199,7 @@ Definition pupil_function (P : plane S) (lam : Qc) (x y : Z) : S :=
 
 Lemma transmission_pupil_function (P : plane S) lam n m x y :
   transmission P lam n m (x - n / 2) (y - m / 2) = pupil_function P lam x y.
-Proof. unfold transmission, pupil_function, Plane.phase.
+Proof using Type. clear sq. unfold transmission, pupil_function, Plane.phase.
   replace (x - n / 2 + n / 2) with x by lia. replace (y - m / 2 + m / 2) with y by lia. reflexivity. Qed.
 
 (* the explicit double sum that every chain theorem ends in *)
@@ -209,7 +209,7 @@ Definition image_sum (n m : Z) (T : Z -> Z -> S) (ar ac : Qc) (u v : Z) : S :=
 
 Lemma fourier_sum_image_sum n m (T : Z -> Z -> S) ar ac u v :
   fourier_sum (mkArr n m T) ar ac 0 0 (zq u) (zq v) = image_sum n m T ar ac u v.
-Proof. unfold fourier_sum, image_sum. cbn [nr nc get]. apply sumZ_ext; intros x _. apply sumZ_ext; intros y _.
+Proof using Type. clear sq. unfold fourier_sum, image_sum. cbn [nr nc get]. apply sumZ_ext; intros x _. apply sumZ_ext; intros y _.
   replace (x - n / 2 + 0) with (x - n / 2) by lia. replace (y - m / 2 + 0) with (y - m / 2) by lia. reflexivity. Qed.
 
 Lemma image_sum_ext n m (T1 T2 : Z -> Z -> S) ar ac u v :
@@ -260,7 +260,7 @@ Qed.
 Lemma pupil_function_mono (P : plane S) lam n m g x y : plane_ok P n m -> pl_mask P = PM2 g ->
   0 <= x < n -> 0 <= y < m ->
   pupil_function P lam x y = (amp_at (pl_amp P) x y * kofb (pget g x y) * ke (- (opd_at (pl_opd P) x y / lam))%Qc)%K.
-Proof.
+Proof using Sring. clear sq.
   intros Hok Eg Hx Hy. unfold pupil_function. rewrite Eg. cbn [masks_of cover fold_right].
   destruct (ok_layers S P n m Hok g) as [En Em]; [rewrite Eg; now left|].
   unfold mask_at. rewrite En, Em. replace (inr n x) with true by (unfold inr; lia).
@@ -368,7 +368,7 @@ Lemma reported_alpha N d u z os : N <> 0 -> os <> 0 -> d <> 0%Qc -> u <> 0%Qc ->
   dft_alpha1 d u (prop_wavelength N N (d, d) (u, u) z os) (Some z) os = (/ zq N)%Qc.
 Proof.
   intros HN Hos Hd Hu Hz. pose proof (fft_shape_wavelength N d u z os HN Hos Hd Hu Hz) as E.
-  unfold Fft.dft_alpha in E. cbn [fst snd] in E. injection E as E _. unfold dft_alpha1. exact E.
+  unfold Fft.dft_alpha in E. cbn [fst snd] in E. apply (f_equal fst) in E. cbn [fst] in E. unfold dft_alpha1. exact E.
 Qed.
 
 Theorem fft_equals_dft (wF : Fft.wavefront S) (N : Z) (d u z : Qc) (os s0 s1 : Z) (scratch : option (arr S)) :
@@ -430,7 +430,7 @@ Proof.
     rewrite fold_left_add_lsum. unfold ortho_scale, field_ft. ring. }
   intros i j Hi Hj. split.
   - rewrite Hcommon by assumption. rewrite (GD i j Hi Hj). cbv zeta. cbn [wwl wfocal wdata wD].
-    fold lamF. rewrite (reported_alpha N d u z os) by (try assumption; lia).
+    unfold lamF. rewrite (reported_alpha N d u z os) by (try assumption; lia).
     replace (inE (0, s0 * os - 1, 0, s1 * os - 1) i j) with true by (unfold inE, inb; lia).
     replace (inE (array_extent (s0 * os) (s1 * os) 0 0) (i - s0 * os / 2) (j - s1 * os / 2)) with true
       by (unfold inE, inb, array_extent; lia).
@@ -469,7 +469,7 @@ Proof.
   exists v, oi. repeat (split; [assumption|]).
   assert (HNr : 0 < Sr * os) by nia. assert (HNc : 0 < Sc * os) by nia.
   set (T := mkArr (S := CS) n m (pupil_function CS P lam)).
-  rewrite <- (parseval_period sq T (Sr * os) (Sc * os) 0%Qc 0%Qc 0 0 Hsq HNr HNc Hfr Hfc).
+  etransitivity; [|exact (parseval_period sq T (Sr * os) (Sc * os) 0%Qc 0%Qc 0 0 Hsq HNr HNc Hfr Hfc)].
   apply sumZ_ext; intros i Hi. apply sumZ_ext; intros j Hj.
   destruct (G i j Hi Hj) as [Ga Gb]. rewrite Gb, Ga. cbv zeta. cbn [focal_opt dft_alpha1]. rewrite Ear, Eac.
   replace (inE (array_extent (Sr * os) (Sc * os) 0 0) (i - Sr * os / 2) (j - Sc * os / 2)) with true
@@ -479,4 +479,320 @@ Proof.
   replace (zq (j - Sc * os / 2) - 0)%Qc with (zq (j - Sc * os / 2)) by ring.
   unfold T. rewrite (fourier_sum_image_sum CS). reflexivity.
 Qed.
+
+Lemma norm2_kofb (b : bool) : @norm2 CS (kofb b) = kofb b.
+Proof. destruct b; unfold kofb.
+  - pose proof (norm2_ke CS CS_kernel CS_conj 0%Qc) as H. rewrite (ke_0 CS CS_kernel) in H. exact H.
+  - unfold norm2. cbn. ring. Qed.
+
+(* Chain_energy for a monolithic pupil: total image intensity = sum |A M exp(2 pi i W/lambda)|^2 = power of the
+   amplitude inside the mask, whatever the OPD *)
+Theorem chain_energy (P : plane CS) (g : garr bool) lam pix foc z dur duc shape os dxr dxc n m Sr Sc :
+  plane_ok P n m -> pl_mask P = PM2 g -> 0 < n -> 0 < m ->
+  mul_pixelscale (pl_pix P) (pix_broadcast pix) = Ok (Some (dxr, dxc)) ->
+  pl_focal P = Some (FVal z) ->
+  match shape with None => (n, m) | Some s => s end = (Sr, Sc) ->
+  0 < Sr -> 0 < Sc -> 1 <= os -> Sr * os < maxsize -> Sc * os < maxsize ->
+  ((dxr * dur) / (lam * z * zq os))%Qc = (/ zq (Sr * os))%Qc ->
+  ((dxc * duc) / (lam * z * zq os))%Qc = (/ zq (Sc * os))%Qc ->
+  n <= Sr * os -> m <= Sc * os ->
+  exists v oi, chain_propagate (S := CS) sq [P] (pwf_init lam pix foc []) dur duc shape None os = Ok v /\
+    wintensity v = Ok oi /\ nr oi = Sr * os /\ nc oi = Sc * os /\
+    @sumZ CS (Sr * os) (fun i => @sumZ CS (Sc * os) (fun j => get oi i j))
+    = @sumZ CS n (fun x => @sumZ CS m (fun y => @norm2 CS
+        (amp_at (pl_amp P) x y * kofb (pget g x y) * ke (- (opd_at (pl_opd P) x y / lam))%Qc)%K)) /\
+    @sumZ CS (Sr * os) (fun i => @sumZ CS (Sc * os) (fun j => get oi i j))
+    = @sumZ CS n (fun x => @sumZ CS m (fun y => (@norm2 CS (amp_at (pl_amp P) x y) * kofb (pget g x y))%K)).
+Proof.
+  intros Hok Eg Hn Hm Hpx Hfo Hshape HSr HSc Hos HbR HbC Ear Eac Hfr Hfc.
+  destruct (energy_of_plane P lam pix foc z dur duc shape os dxr dxc n m Sr Sc Hok Hn Hm Hpx Hfo Hshape HSr HSc Hos
+              HbR HbC Ear Eac Hfr Hfc) as (v & oi & Ev & Foi & Ni & Mi & E).
+  exists v, oi. repeat (split; [assumption|]).
+  assert (E1 : @sumZ CS (Sr * os) (fun i => @sumZ CS (Sc * os) (fun j => get oi i j))
+    = @sumZ CS n (fun x => @sumZ CS m (fun y => @norm2 CS
+        (amp_at (pl_amp P) x y * kofb (pget g x y) * ke (- (opd_at (pl_opd P) x y / lam))%Qc)%K))).
+  { rewrite E. apply sumZ_ext; intros x Hx. apply sumZ_ext; intros y Hy.
+    now rewrite (pupil_function_mono CS CS_ring P lam n m g x y Hok Eg Hx Hy). }
+  split; [exact E1|]. rewrite E1. apply sumZ_ext; intros x Hx. apply sumZ_ext; intros y Hy.
+  rewrite !(norm2_mul CS CS_ring CS_conj), (norm2_ke CS CS_kernel CS_conj), norm2_kofb. cbn. ring.
+Qed.
 End ChainEnergy.
+
+(* ================================================================== C04 o C07 o C02: tilt metadata = OPD ramp *)
+Section ChainTilt.
+Variable S : Scalar.
+Hypothesis Sring : is_ring S.
+Hypothesis Skernel : kernel_laws S.
+Variable sq : Qc -> S.
+Add Ring SrT : Sring.
+
+(* ------------------------------------------------------------------ which tilt entries the products carry *)
+Lemma mul_core_tilt (da : arr S) ora oca (db : arr S) orb ocb tl f :
+  mul_core da ora oca db orb ocb tl = Some f -> ftilt f = tl.
+Proof. unfold mul_core. destruct (intersect _ _); [|discriminate].
+  destruct (intersection_slices _ _) as [[[? ?] [? ?]] [[? ?] [? ?]]]. destruct (intersection_shift _ _).
+  intros H. injection H as <-. reflexivity. Qed.
+
+Lemma fmul_tilt (a b f : field S) : fmul a b = Some f -> ftilt f = ftilt a ++ ftilt b.
+Proof. unfold fmul. destr_if.
+  - unfold mul_scalar. destr_if; [|discriminate]. intros H. injection H as <-. reflexivity.
+  - unfold mul_array. cbv zeta.
+    destruct (negb (same_shape (fd a) (fd b)) && is0d (fd a)); destruct (negb (same_shape (fd a) (fd b)) && is0d (fd b));
+      apply mul_core_tilt. Qed.
+
+Lemma in_mul_fields (phs fs : list (field S)) x : In x (mul_fields phs fs) ->
+  exists f p, In f fs /\ In p phs /\ fmul f p = Some x.
+Proof.
+  intros Hx. unfold mul_fields in Hx. apply in_flat_map in Hx. destruct Hx as (f & Hin & Hx).
+  apply in_flat_map in Hx. destruct Hx as (p & Hpin & Hx). unfold keep in Hx.
+  destruct (fmul f p) as [y|] eqn:E; [|contradiction]. destruct Hx as [<-|[]]. now exists f, p.
+Qed.
+
+Lemma phasor_tilt (P : plane S) lam sr sc n mk s p : phasor P lam sr sc n mk s = Ok p ->
+  ftilt p = match pl_tilt P with [] => [] | tl => take_every (psize (pl_mask P)) n tl end.
+Proof. unfold phasor. destruct (amp_data _ _ _) as [a|]; [|discriminate]. cbn [rbind].
+  destruct (opd_data _ _ _ _) as [o|]; [|discriminate]. cbn [rbind].
+  destruct (dmul a o) as [d|]; [|discriminate]. cbn [rbind]. destruct (slice_offset s sr sc).
+  intros H. injection H as <-. reflexivity. Qed.
+
+Lemma phasors_from_untilted (P : plane S) lam sr sc : pl_tilt P = [] -> forall mks sl n phs,
+  phasors_from P lam sr sc n mks sl = Ok phs -> forall p, In p phs -> ftilt p = [].
+Proof.
+  intros Ht. induction mks as [|mk mks IH]; intros sl n phs H p Hp.
+  - cbn in H. injection H as <-. destruct Hp.
+  - destruct sl as [|s sl]; [cbn in H; injection H as <-; destruct Hp|]. cbn [phasors_from] in H.
+    destruct (phasor P lam sr sc n mk s) as [q|] eqn:E; [|discriminate]. cbn [rbind] in H.
+    destruct (phasors_from P lam sr sc (Datatypes.S n) mks sl) as [r|] eqn:E2; [|discriminate]. cbn [rbind] in H.
+    injection H as <-. destruct Hp as [<-|Hp].
+    + rewrite (phasor_tilt _ _ _ _ _ _ _ _ E), Ht. reflexivity.
+    + exact (IH sl _ r E2 p Hp).
+Qed.
+
+Lemma plane_phasors_untilted (P : plane S) lam phs : pl_tilt P = [] -> plane_phasors P lam = Ok phs ->
+  forall p, In p phs -> ftilt p = [].
+Proof. intros Ht. unfold plane_phasors. destruct (pl_mask P); apply phasors_from_untilted; exact Ht. Qed.
+
+(* Plane.multiply of a plane whose .tilt is empty hands every product the tilt list of the incoming field *)
+Lemma plane_multiply_data (P : plane S) (w w' : pwf S) : plane_multiply P w = Ok w' ->
+  exists phs, (pw_data w = [] \/ plane_phasors P (pw_lam w) = Ok phs) /\ pw_data w' = mul_fields phs (pw_data w).
+Proof.
+  unfold plane_multiply. destruct (mul_pixelscale _ _) as [px|]; [|discriminate]. cbn [rbind].
+  destruct (pw_data w) as [|f0 fs] eqn:Ed.
+  - cbn [rbind]. intros H. injection H as <-. exists []. split; [now left|reflexivity].
+  - destruct (plane_phasors P (pw_lam w)) as [phs|]; [|discriminate]. cbn [rbind]. intros H. injection H as <-.
+    exists phs. split; [now right|reflexivity].
+Qed.
+
+Lemma plane_multiply_untilted (P : plane S) (w w' : pwf S) : pl_tilt P = [] -> plane_multiply P w = Ok w' ->
+  forall x, In x (pw_data w') -> exists f, In f (pw_data w) /\ ftilt x = ftilt f.
+Proof.
+  intros Ht H x Hx. destruct (plane_multiply_data P w w' H) as (phs & Hph & Ed). rewrite Ed in Hx.
+  destruct (in_mul_fields phs (pw_data w) x Hx) as (f & p & Hf & Hp & E). exists f. split; [exact Hf|].
+  rewrite (fmul_tilt f p x E). destruct Hph as [Hnil|Hph]; [rewrite Hnil in Hf; destruct Hf|].
+  rewrite (plane_phasors_untilted P (pw_lam w) phs Ht Hph p Hp). apply app_nil_r.
+Qed.
+
+(* ------------------------------------------------------------------ the all-scalar (default) plane on array fields *)
+Lemma scalar_plane_phasors (P : plane S) v q b lam : plane_scalar P v q b ->
+  exists tl, plane_phasors P lam = Ok [mkField (D0 (v * kofb b * Plane.phase lam q)%K) 0 0 tl].
+Proof. intros (Ea & Eo & Em & Es). unfold plane_phasors. rewrite Em, Es. cbn [phasors_from]. unfold phasor.
+  rewrite Ea, Eo. cbn [amp_data opd_data rbind dmul slice_offset dforce]. eexists. reflexivity. Qed.
+
+Lemma fmul_sized_scalar (f x : field S) c orr occ tl : fsized f -> fmul f (mkField (D0 c) orr occ tl) = Some x -> fsized x.
+Proof using Type. clear sq.
+  unfold fsized at 1. destruct f as [[vf|df] orf ocf tf]; cbn [fd]; [contradiction|]. intros [H1 H2].
+  unfold fmul, mul_array. cbn [fd is0d andb same_shape negb dshape dget toarr offr offc ftilt fst snd].
+  apply (mul_core_sized S); unfold aconst; cbn [nr nc]; lia.
+Qed.
+
+Lemma scalar_plane_sized (P : plane S) v q b (w w' : pwf S) : plane_scalar P v q b -> plane_multiply P w = Ok w' ->
+  (forall f, In f (pw_data w) -> fsized f) -> forall x, In x (pw_data w') -> fsized x.
+Proof.
+  intros Hs H Hf x Hx. destruct (plane_multiply_data P w w' H) as (phs & Hph & Ed). rewrite Ed in Hx.
+  destruct (in_mul_fields phs (pw_data w) x Hx) as (f & p & Hin & Hp & E).
+  destruct Hph as [Hnil|Hph]; [rewrite Hnil in Hin; destruct Hin|].
+  destruct (scalar_plane_phasors P v q b (pw_lam w) Hs) as (tl & Etl). rewrite Etl in Hph.
+  injection Hph as <-. destruct Hp as [<-|[]].
+  exact (fmul_sized_scalar f x _ _ _ _ (Hf f Hin) E).
+Qed.
+
+(* lentil.Tilt(x=a, y=b) multiplied after a chain that left array fields without tilt: same plane function, same
+   attributes, every field is an array field carrying exactly this one tilt element *)
+Lemma tilt_plane_after (t : tilt) (Pd : plane S) (w1 : pwf S) z :
+  plane_scalar Pd k1 0%Qc true -> pl_tilt Pd = [] -> pl_pix Pd = None -> pl_focal Pd = None ->
+  (forall f, In f (pw_data w1) -> fsized f /\ ftilt f = []) -> pw_focal w1 = FVal z -> z <> 0%Qc ->
+  exists w2, elem_multiply (CTilt t Pd) w1 = Ok w2 /\
+    pw_lam w2 = pw_lam w1 /\ pw_shape w2 = pw_shape w1 /\ pw_pix w2 = pw_pix w1 /\ pw_focal w2 = FVal z /\
+    (forall f, In f (pw_data w2) -> fsized f /\ ftilt f = [t]) /\
+    forall r c, embed_sum (pw_data w2) r c = embed_sum (pw_data w1) r c.
+Proof.
+  intros Hs Ht Hpx Hfo Hf Hz Hz0.
+  assert (Hv : forall f, In f (pw_data w1) -> fvalid S f) by (intros f H; apply (fsized_valid S), Hf, H).
+  assert (Ho : origin_consts (pw_data w1)).
+  { intros f H E. destruct (fsized_not0d S f (proj1 (Hf f H))) as [_ E']. congruence. }
+  assert (Hp : mul_pixelscale (pl_pix Pd) (pw_pix w1) = Ok (pw_pix w1)) by (rewrite Hpx; destruct (pw_pix w1); reflexivity).
+  destruct (plane_multiply_scalar S Sring Pd w1 k1 0%Qc true (pw_pix w1) Hs Hv Ho Hp) as (w0 & E & L & Px & Sh & Fo & G).
+  exists (append_tilt t w0). cbn [elem_multiply]. rewrite E. split; [reflexivity|].
+  unfold append_tilt. cbn [pw_lam pw_shape pw_pix pw_focal pw_data]. repeat (split; [assumption|]). split.
+  { rewrite Fo, Hfo, Hz. cbn [focal_truthy]. now rewrite (Qc_eq_bool_false z 0%Qc Hz0). }
+  split.
+  - intros f Hin. apply in_map_iff in Hin. destruct Hin as (f0 & <- & Hin). cbn [fd ftilt]. split.
+    + apply (scalar_plane_sized Pd k1 0%Qc true w1 w0 Hs E (fun g Hg => proj1 (Hf g Hg)) f0 Hin).
+    + destruct (plane_multiply_untilted Pd w1 w0 Ht E f0 Hin) as (g & Hg & ->). rewrite (proj2 (Hf g Hg)). reflexivity.
+  - intros r c. rewrite (embed_sum_retilt S). rewrite G, (phase_zero S _ Skernel). unfold kofb. ring.
+Qed.
+
+(* ------------------------------------------------------------------ propagation of a uniformly tilted wavefront *)
+(* Field.shift (angular elements) of a field carrying the single element Tilt(x=a, y=b): the formula of C04 *)
+Lemma ang_shift_single z dur duc os (f : field S) a b : ftilt f = [mk_tilt a b] ->
+  ang_shift (Some z) dur duc os f = ((z * a * zq os / dur)%Qc, (- (z * b * zq os / duc))%Qc).
+Proof. intros H. unfold ang_shift. rewrite H. unfold mk_tilt. cbn [fold_left ang_step fst snd].
+  f_equal; unfold Qcdiv; ring. Qed.
+
+(* the defining sum with rational output coordinates *)
+Definition image_sumQ (n m : Z) (T : Z -> Z -> S) (ar ac U V : Qc) : S :=
+  sumZ n (fun x => sumZ m (fun y => (T x y * ke (ar * zq (x - n / 2) * U + ac * zq (y - m / 2) * V)%Qc)%K)).
+Lemma fourier_sum_image_sumQ n m (T : Z -> Z -> S) ar ac U V :
+  fourier_sum (mkArr n m T) ar ac 0 0 U V = image_sumQ n m T ar ac U V.
+Proof using Type. clear sq. unfold fourier_sum, image_sumQ. cbn [nr nc get]. apply sumZ_ext; intros x _. apply sumZ_ext; intros y _.
+  replace (x - n / 2 + 0) with (x - n / 2) by lia. replace (y - m / 2 + 0) with (y - m / 2) by lia. reflexivity. Qed.
+Lemma image_sumQ_ext n m (T1 T2 : Z -> Z -> S) ar ac U V :
+  (forall x y, 0 <= x < n -> 0 <= y < m -> T1 x y = T2 x y) -> image_sumQ n m T1 ar ac U V = image_sumQ n m T2 ar ac U V.
+Proof. intros H. unfold image_sumQ. apply sumZ_ext; intros x Hx. apply sumZ_ext; intros y Hy. now rewrite H. Qed.
+
+(* propagate_dft of the wavefront a chain left behind, with Field.shift for angular tilt elements *)
+Definition propagate_pwf_tilted (w : pwf S) dur duc shape pshape os : result (wavefront S) :=
+  rbind (to_wavefront w PtPupil) (fun w2 =>
+  propagate_dft sq (ang_shift (wfocal w2) dur duc os) w2 dur duc shape pshape os None).
+
+(* every field carries Tilt(x=a, y=b): the image is the transform of the plane function, moved by
+   (z a os / du_r, - z b os / du_c) output samples (whole and fractional part), evaluated in the window centred at the
+   whole part of that shift *)
+Theorem tilted_pwf_samples (w2 : pwf S) a b z dur duc shape pshape os dxr dxc n m Sr Sc Pr Pc :
+  pw_shape w2 = Some (n, m) -> pw_pix w2 = Some (dxr, dxc) -> pw_focal w2 = FVal z ->
+  (forall f, In f (pw_data w2) -> fsized f /\ ftilt f = [mk_tilt a b]) ->
+  0 < n -> 0 < m ->
+  (forall r c, inr n (r + n / 2) && inr m (c + m / 2) = false -> embed_sum (pw_data w2) r c = k0) ->
+  match shape with None => (n, m) | Some s => s end = (Sr, Sc) ->
+  match pshape with None => (Sr, Sc) | Some p => p end = (Pr, Pc) ->
+  0 < Sr -> 0 < Sc -> 0 < Pr -> 0 < Pc -> 1 <= os ->
+  let sr := (z * a * zq os / dur)%Qc in let sc := (- (z * b * zq os / duc))%Qc in
+  let ar := dft_alpha1 dxr dur (pw_lam w2) (Some z) os in
+  let ac := dft_alpha1 dxc duc (pw_lam w2) (Some z) os in
+  exists v o, propagate_pwf_tilted w2 dur duc shape pshape os = Ok v /\
+    wfield v = Ok o /\ nr o = Sr * os /\ nc o = Sc * os /\
+    forall i j, 0 <= i < Sr * os -> 0 <= j < Sc * os ->
+      let u := i - (Sr * os) / 2 in let v := j - (Sc * os) / 2 in
+      get o i j =
+        (if inE (array_extent (Pr * os) (Pc * os) (qfix sr) (qfix sc)) u v
+         then (image_sumQ n m (fun x y => embed_sum (pw_data w2) (x - n / 2) (y - m / 2)) ar ac
+                          (zq u - sr)%Qc (zq v - sc)%Qc
+               * sq (qabs (ar * ac)%Qc))%K
+         else k0).
+Proof.
+  intros Hsh Hpx Hfo Hd Hn Hm Hsup Hshape Hpshape HSr HSc HPr HPc Hos sr sc ar ac.
+  unfold propagate_pwf_tilted. rewrite (to_wavefront_ok S w2 n m PtPupil Hsh) by (rewrite Hfo; discriminate).
+  cbn [rbind]. rewrite Hfo. cbn [focal_opt wfocal].
+  set (w3 := mkWf (pw_lam w2) (pw_pix w2) (Some z) (n, m) PtPupil (pw_data w2)).
+  assert (Hb : mask_bbox None (Sr * os) (Sc * os) = Ok (0, Sr * os - 1, 0, Sc * os - 1)) by reflexivity.
+  assert (Hmk : forall k, @None bmask = Some k -> mnr k = Sr * os /\ mnc k = Sc * os) by discriminate.
+  assert (Hpt : wptype w3 <> PtNone) by discriminate.
+  assert (Hd3 : forall f, In f (wdata w3) -> ang_shift (Some z) dur duc os f = (sr, sc) /\ sized S f).
+  { intros f Hf. destruct (Hd f Hf) as [Hs Ht]. split; [now apply ang_shift_single|now apply fsized_sized]. }
+  destruct (propagate_plane_samples S Sring Skernel sq (ang_shift (Some z) dur duc os) w3 dur duc shape pshape os None
+              dxr dxc Sr Sc Pr Pc (0, Sr * os - 1, 0, Sc * os - 1) n m sr sc Hpt Hpx Hd3 Hn Hm Hsup Hshape Hpshape
+              HSr HSc HPr HPc Hos Hmk Hb) as (v & o & Ev & _ & Fo & No & Mo & G).
+  exists v, o. repeat (split; [assumption|]).
+  intros i j Hi Hj. rewrite (G i j Hi Hj). cbv zeta. cbn [wwl wfocal w3]. fold ar ac.
+  replace (inE (0, Sr * os - 1, 0, Sc * os - 1) i j) with true by (unfold inE, inb; lia). cbn [andb].
+  now rewrite fourier_sum_image_sumQ.
+Qed.
+
+(* ------------------------------------------------------------------ the same tilt written into the OPD *)
+(* the pupil whose OPD carries, in addition, the ramp a X dx_r - b Y dx_c that Tilt(x=a, y=b) stands for
+   ((X, Y) = (row, column) counted from the origin sample floor(n/2)) *)
+Definition ramp_plane (P : plane S) (a b dxr dxc : Qc) (n m : Z) : plane S :=
+  set_opd P (OpdA (mkP n m (fun x y => (opd_at (pl_opd P) x y + opd_ramp a b dxr dxc (x - n / 2) (y - m / 2))%Qc))).
+
+Lemma ramp_plane_ok (P : plane S) a b dxr dxc n m : plane_ok P n m -> plane_ok (ramp_plane P a b dxr dxc n m) n m.
+Proof. intros [D Sl L [A O]]. constructor; cbn [ramp_plane set_opd pl_mask pl_slices]; try assumption.
+  split; [exact A|]. cbn [pl_opd pnr pnc]. split; reflexivity. Qed.
+
+Lemma pupil_function_ramp (P : plane S) a b dxr dxc n m lam x y :
+  pupil_function S (ramp_plane P a b dxr dxc n m) lam x y
+  = (pupil_function S P lam x y * ke (- (opd_ramp a b dxr dxc (x - n / 2) (y - m / 2) / lam))%Qc)%K.
+Proof.
+  unfold pupil_function, ramp_plane. cbn [set_opd pl_amp pl_opd pl_mask opd_at pget].
+  replace (- ((opd_at (pl_opd P) x y + opd_ramp a b dxr dxc (x - n / 2) (y - m / 2)) / lam))%Qc
+    with (- (opd_at (pl_opd P) x y / lam) + - (opd_ramp a b dxr dxc (x - n / 2) (y - m / 2) / lam))%Qc
+    by (unfold Qcdiv; ring).
+  rewrite (ke_add S Skernel). ring.
+Qed.
+
+(* C04 o C07 o C02.  Representation A: Wavefront * Pupil * Tilt(x=a, y=b) - the tilt is metadata of every field and
+   propagate_dft moves the evaluation window and the sampling coordinates.  Representation B: the same Pupil with the
+   ramp written into its OPD, no metadata.  Both rendered fields are the SAME function X of the sample, each inside
+   its own window (A: centred at the whole part of the shift; B: centred at 0) - hence equal on every sample both
+   evaluate. *)
+Theorem tilt_vs_ramp_gen (P Pd : plane S) a b lam pix foc z dur duc shape pshape os dxr dxc n m Sr Sc Pr Pc :
+  plane_ok P n m -> pl_tilt P = [] -> 0 < n -> 0 < m ->
+  mul_pixelscale (pl_pix P) (pix_broadcast pix) = Ok (Some (dxr, dxc)) -> pl_focal P = Some (FVal z) ->
+  plane_scalar Pd k1 0%Qc true -> pl_tilt Pd = [] -> pl_pix Pd = None -> pl_focal Pd = None ->
+  dur <> 0%Qc -> duc <> 0%Qc -> lam <> 0%Qc -> z <> 0%Qc ->
+  match shape with None => (n, m) | Some s => s end = (Sr, Sc) ->
+  match pshape with None => (Sr, Sc) | Some p => p end = (Pr, Pc) ->
+  0 < Sr -> 0 < Sc -> 0 < Pr -> 0 < Pc -> 1 <= os -> Sr * os < maxsize -> Sc * os < maxsize ->
+  let w0 := pwf_init (S := S) lam pix foc [] in
+  let sr := (z * a * zq os / dur)%Qc in let sc := (- (z * b * zq os / duc))%Qc in
+  let ar := ((dxr * dur) / (lam * z * zq os))%Qc in
+  let ac := ((dxc * duc) / (lam * z * zq os))%Qc in
+  exists vA oA vB oB,
+    rbind (plane_multiply P w0) (fun w1 => rbind (elem_multiply (CTilt (mk_tilt a b) Pd) w1) (fun w2 =>
+      propagate_pwf_tilted w2 dur duc shape pshape os)) = Ok vA /\ wfield vA = Ok oA /\
+    chain_propagate sq [ramp_plane P a b dxr dxc n m] w0 dur duc shape pshape os = Ok vB /\ wfield vB = Ok oB /\
+    nr oA = Sr * os /\ nc oA = Sc * os /\ nr oB = Sr * os /\ nc oB = Sc * os /\
+    forall i j, 0 <= i < Sr * os -> 0 <= j < Sc * os ->
+      let u := i - (Sr * os) / 2 in let v := j - (Sc * os) / 2 in
+      let X := (image_sumQ n m (pupil_function S P lam) ar ac (zq u - sr)%Qc (zq v - sc)%Qc * sq (qabs (ar * ac)%Qc))%K in
+      get oA i j = (if inE (array_extent (Pr * os) (Pc * os) (qfix sr) (qfix sc)) u v then X else k0) /\
+      get oB i j = (if inE (array_extent (Pr * os) (Pc * os) 0 0) u v then X else k0).
+Proof.
+  intros Hok HtP Hn Hm Hpx Hfo Hs HtD HpD HfD Hdur Hduc Hlam Hz Hshape Hpshape HSr HSc HPr HPc Hos HbR HbC w0 sr sc ar ac.
+  (* A: the pupil, then the Tilt plane *)
+  destruct (plane_multiply_spec S Sring P w0 n m (Some (dxr, dxc)) Hok (fresh_valid S lam pix foc []) Hpx)
+    as (w1 & E1 & L1 & P1 & S1 & F1 & Z1 & G1).
+  rewrite Hfo in F1. change (pw_lam w0) with lam in L1, G1.
+  assert (T1 : forall f, In f (pw_data w1) -> fsized f /\ ftilt f = []).
+  { intros f Hf. split; [now apply Z1|]. destruct (plane_multiply_untilted P w0 w1 HtP E1 f Hf) as (g & [<-|[]] & ->).
+    reflexivity. }
+  destruct (tilt_plane_after (mk_tilt a b) Pd w1 z Hs HtD HpD HfD T1 F1 Hz)
+    as (w2 & E2 & L2 & S2 & P2 & F2 & T2 & G2).
+  assert (Hemb : forall x y, embed_sum (pw_data w2) (x - n / 2) (y - m / 2) = pupil_function S P lam x y).
+  { intros x y. rewrite G2, G1. unfold w0. rewrite (ec_sum_fresh S Sring), (transmission_pupil_function S). ring. }
+  assert (Hsup : forall r c, inr n (r + n / 2) && inr m (c + m / 2) = false -> embed_sum (pw_data w2) r c = k0).
+  { intros r c E. rewrite G2, G1, (transmission_outside S Sring P lam n m r c (ok_layers S P n m Hok) E). ring. }
+  destruct (tilted_pwf_samples w2 a b z dur duc shape pshape os dxr dxc n m Sr Sc Pr Pc
+              ltac:(congruence) ltac:(congruence) F2 T2 Hn Hm Hsup Hshape Hpshape HSr HSc HPr HPc Hos)
+    as (vA & oA & EA & FA & NA & MA & GA).
+  (* B: the ramp in the OPD *)
+  destruct (image_of_plane S Sring Skernel sq (ramp_plane P a b dxr dxc n m) lam pix foc (FVal z) dur duc shape pshape os
+              dxr dxc n m Sr Sc Pr Pc (ramp_plane_ok P a b dxr dxc n m Hok) Hn Hm Hpx Hfo ltac:(discriminate)
+              Hshape Hpshape HSr HSc HPr HPc Hos HbR HbC)
+    as (vB & oB & oiB & EB & FB & _ & NB & MB & _ & _ & GB).
+  exists vA, oA, vB, oB. split; [rewrite E1; cbn [rbind]; rewrite E2; cbn [rbind]; exact EA|].
+  repeat (split; [assumption|]).
+  intros i j Hi Hj. cbv zeta. split.
+  - rewrite (GA i j Hi Hj). cbv zeta. rewrite L2, L1. cbn [dft_alpha1]. fold ar ac sr sc.
+    destr_if; [|reflexivity]. f_equal. apply image_sumQ_ext. intros x y _ _. apply Hemb.
+  - destruct (GB i j Hi Hj) as [GB1 _]. rewrite GB1. cbv zeta. cbn [focal_opt dft_alpha1]. fold ar ac.
+    destr_if; [|reflexivity]. f_equal.
+    rewrite <- (fourier_sum_image_sum S), <- fourier_sum_image_sumQ.
+    destruct (tilt_metadata_equals_ramp S Sring Skernel (mkArr n m (pupil_function S P lam)) a b dxr dxc dur duc lam z (zq os)
+                0 0 (zq (i - Sr * os / 2)) (zq (j - Sc * os / 2)) Hdur Hduc Hlam Hz ltac:(apply zq_neq0; lia))
+      as (sr' & sc' & _ & -> & -> & E).
+    cbn [nr nc get] in E. unfold Tilt.dft_alpha in E. fold ar ac sr sc in E. rewrite <- E.
+    apply (fourier_sum_ext S); [reflexivity|reflexivity|]. cbn [nr nc get]. intros x y Hx Hy.
+    rewrite pupil_function_ramp.
+    replace (x - n / 2 + 0) with (x - n / 2) by lia. replace (y - m / 2 + 0) with (y - m / 2) by lia. reflexivity.
+Qed.
+End ChainTilt.
